@@ -146,6 +146,10 @@ def run(ctx):
     ctx.run_hypothesis(doc_pairs(D.profile('full', chord_optional_dur=True)), check, max_examples=n, label='full')
     ctx.run_hypothesis(doc_pairs(D.profile('chordrest', kern_weight=6)), check, max_examples=max(40, n // 6), salt=1,
                        label='chordrest')
+    # multi-character signifier units (elided slurs, editorial marks, footnotes, staff changes on slurs/beams): outside
+    # the canonicity CLAIM, but the fixed-point clauses apply to every document that imports without errors
+    ctx.run_hypothesis(doc_pairs(D.profile('full', ext_sigs=True, kern_weight=6)), check, max_examples=max(40, n // 5), salt=2,
+                       label='multi-character-signifiers')
 
 
 def replay(case):
